@@ -50,7 +50,12 @@ def vectors():
     out = []
     for fam in T.FAMILIES:
         out += VALID[fam]
-    return out + INVALID
+    # valid vectors wrapped in blanks: the library rejects these strings as they stand
+    wrapped = []
+    for fam in T.FAMILIES:
+        v = VALID[fam][0]
+        wrapped += [v + " ", " " + v, "\t" + v, v + "\n", " " + v + " "]
+    return out + INVALID + wrapped
 
 
 def judge_cmd(args, vector, form):
